@@ -34,6 +34,7 @@ namespace io {
         virtual std::string read() = 0;
         virtual void close() = 0;
         virtual bool is_real() const noexcept { return true; }
+        void set_offset(const std::size_t) noexcept {}
     };
 
     // ------------------------------------------------------------------------------------------------ conforming twins
@@ -139,7 +140,21 @@ namespace io {
                             throw bzip2_error{"read open failed", bzerror};
                         }
                     } else {
-                        m_stream_end = true;
+                        // libbz2 reads the file in blocks: nothing unused does not mean nothing left
+                        const int c = fgetc(m_file);
+                        if (c == EOF) {
+                            m_stream_end = true;
+                        } else {
+                            ungetc(c, m_file);
+                            ::BZ2_bzReadClose(&bzerror, m_bzfile);
+                            if (bzerror != BZ_OK) {
+                                throw bzip2_error{"read close failed", bzerror};
+                            }
+                            m_bzfile = ::BZ2_bzReadOpen(&bzerror, m_file, 0, 0, nullptr, 0);
+                            if (!m_bzfile) {
+                                throw bzip2_error{"read open failed", bzerror};
+                            }
+                        }
                     }
                 }
                 buffer.resize(static_cast<std::string::size_type>(nread));
@@ -147,6 +162,8 @@ namespace io {
                     break;
                 }
             }
+            const long pos = ftell(m_file);
+            set_offset(static_cast<std::size_t>(pos));
             return buffer;
         }
 
@@ -182,6 +199,7 @@ namespace io {
             if (nread > 0) {
                 buffer.resize(static_cast<std::string::size_type>(nread));
             }
+            set_offset(static_cast<std::size_t>(::gztell(m_gzfile)));     // O1: uncompressed position
             return buffer;
         }
 
